@@ -1,14 +1,525 @@
 import Model.Util
 /-
-  Model/Loop.lean — (stub) executable model; see DESIGN.md.  Core Lean only.
+  Model/Loop.lean — executable model of the generation-loop accounting of the six training
+  functions of `agilerl/training/` and of the (loop, algorithm, memory) compatibility table.
+  Core Lean only.
+
+  What is modelled (read off the code, function by function):
+
+  * the outer loop.  `train_off_policy`, `train_on_policy`, `train_offline`, `train_bandits`,
+    `train_multi_agent_off_policy`:
+        `while np.less([agent.steps[-1] for agent in pop], max_steps).all():`
+    — continue while *every* agent is below `max_steps`, i.e. stop as soon as *some* agent has
+    reached it.  `train_multi_agent_on_policy`:
+        `while np.sum([agent.steps[-1] for agent in pop]) < max_steps:`
+    — the budget is summed over the population.
+  * the per-agent rollout of one generation:
+      off / maoff : `for idx_step in range(evo_steps // num_envs)`: one (vector) env step,
+                    `steps += num_envs`, memory add, learn scheduling (below);
+      on / maon   : `for _ in range(-(evo_steps // -learn_step))`:
+                       `for idx_step in range(-(learn_step // -num_envs))`: env step, `steps += num_envs`
+                       then exactly one `agent.learn(...)`;
+      offline     : `for idx_step in range(evo_steps)`: one `learn`; `agent.steps[-1] += evo_steps`;
+      bandit      : `for idx_step in range(episode_steps)`: env step, memory add of one transition,
+                    `if len(memory) >= batch_size: for _ in range(learn_step): learn`;
+                    `agent.steps[-1] += episode_steps`.
+    afterwards `agent.steps[-1] += steps`.
+  * learn scheduling of off / maoff (per rollout iteration, *after* the memory add):
+        if learn_step > num_envs:
+            if idx_step % (learn_step // num_envs) == 0 and len(memory) >= batch_size and GATE > learning_delay: 1 learn
+        elif len(memory) >= batch_size and GATE > learning_delay: num_envs // learn_step learns
+    with GATE = `memory.size` (off; = len) and `memory.counter` (maoff; total ever added).
+  * the memory is shared by the whole population and never cleared: `len` grows by `num_envs`
+    per add up to the capacity.  With an n-step buffer (`n_step_memory`) the first n-1 pushes of the
+    whole run fill the window and add nothing.
+  * evaluation: `agent.test(...)` appends one fitness per agent; `pop_fitnesses.append(fitnesses)`;
+    then `agent.steps.append(agent.steps[-1])` for every agent.
+  * early stop: `target is not None and all(mean(fitness[-10:]) > target) and len(pop[0].steps) >= 100`
+    → return (before selection); "all recent means above target" is an input bit of the model.
+  * `tournament_selection_and_mutation`: `TournamentSelection.select` is taken as an abstract step
+    described by its outcome (slot of the elite, slots of the tournament winners): with elitism
+    `elite.clone()` (index kept) comes first, every other child is `parent.clone(max_id + 1 + t)`;
+    a clone copies `steps`, `fitness`, hyper-parameters and weights.  `Mutations.mutation` keeps
+    order and size; an individual that draws a real mutation gets new weights (a fresh `tag`), slot 0
+    is forced to "no mutation" when `mutate_elite=False`.  New `learn_step` / `batch_size` values
+    (hyper-parameter mutation) are inputs.  `train_bandits` only selects when
+    `pop[0].steps[-1] // evo_steps > evo_count`.
+  * checkpoints: `if pop[0].steps[-1] // checkpoint > checkpoint_count: save; checkpoint_count += 1`
+    — at most one save per generation, file names carry `agent.steps[-1]`.
+
+  Ghost fields (`env`, `its`, `tag`) do not exist in the code: `env` counts the environment steps
+  (for `train_offline`: learn steps) the rollout actually performed, `its` the rollout iterations,
+  `tag` names the weights.  The correspondence harness measures `env` with instrumented
+  environments.
 -/
+namespace Loop
+
+inductive Kind where
+  | off | on | offline | bandit | maoff | maon
+deriving DecidableEq, Repr, Inhabited
+
+structure Cfg where
+  kind : Kind := .off
+  maxSteps : Nat := 0
+  evoSteps : Nat := 0
+  numEnvs : Nat := 1          -- 1 for a non-vectorised environment
+  delay : Nat := 0            -- learning_delay
+  cap : Nat := 0              -- capacity of the replay memory
+  nStep : Nat := 0            -- n of the n-step buffer; < 2 = no n-step buffer
+  episodeSteps : Nat := 0     -- train_bandits only
+  checkpoint : Nat := 0       -- 0 = `checkpoint is None`
+  elitism : Bool := true
+  mutateElite : Bool := true
+deriving Repr, DecidableEq, Inhabited
+
+structure Agent where
+  index : Nat := 0
+  cur : Nat := 0              -- steps[-1]
+  past : List Nat := []       -- steps[:-1], newest first
+  fit : Nat := 0              -- len(fitness)
+  ls : Nat := 1               -- learn_step
+  bs : Nat := 1               -- batch_size
+  env : Nat := 0              -- ghost: environment steps actually taken by this lineage
+  its : Nat := 0              -- ghost: rollout iterations executed by this lineage
+  tag : Nat := 0              -- ghost: name of the weights
+deriving Repr, DecidableEq, Inhabited
+
+structure Mem where
+  len : Nat := 0              -- len(memory)
+  counter : Nat := 0          -- memory.counter (total ever added)
+  pushes : Nat := 0           -- pushes into the n-step window (never cleared)
+deriving Repr, DecidableEq, Inhabited
+
+/-- `f 0`, then `f 1`, …, then `f (n-1)` -/
+def iterate {α} (f : Nat → α → α) : Nat → α → α
+  | 0, x => x
+  | n + 1, x => f n (iterate f n x)
+
+/-- Python's `-(a // -b)` for positive `b` -/
+def ceilDiv (a b : Nat) : Nat := (a + b - 1) / b
+
+/-- environment steps per rollout iteration -/
+def stride (c : Cfg) : Nat :=
+  match c.kind with
+  | .offline | .bandit => 1
+  | _ => c.numEnvs
+
+/-- one `memory.add` / `save_to_memory` of a (vectorised) transition -/
+def memAdd (c : Cfg) (m : Mem) : Mem :=
+  match c.kind with
+  | .off =>
+    if 2 ≤ c.nStep ∧ m.pushes + 1 < c.nStep then { m with pushes := m.pushes + 1 }
+    else { len := min (m.len + c.numEnvs) c.cap, counter := m.counter + c.numEnvs, pushes := m.pushes + 1 }
+  | .maoff => { m with len := min (m.len + c.numEnvs) c.cap, counter := m.counter + c.numEnvs }
+  | .bandit => { m with len := min (m.len + 1) c.cap, counter := m.counter + 1 }
+  | _ => m
+
+/-- number of `learn` calls in rollout iteration `idx` of off / maoff, memory state after the add -/
+def learnsAt (c : Cfg) (a : Agent) (m : Mem) (idx : Nat) : Nat :=
+  let gate := if c.kind = .maoff then m.counter else m.len
+  if c.numEnvs < a.ls then
+    if idx % (a.ls / c.numEnvs) = 0 ∧ a.bs ≤ m.len ∧ c.delay < gate then 1 else 0
+  else if a.bs ≤ m.len ∧ c.delay < gate then c.numEnvs / a.ls else 0
+
+/-- local variables of one agent's rollout -/
+structure Roll where
+  m : Mem
+  steps : Nat := 0            -- the local `steps`
+  env : Nat := 0              -- ghost: environment steps performed
+  its : Nat := 0              -- ghost: iterations performed
+  learns : Nat := 0           -- learn calls
+deriving Repr, DecidableEq, Inhabited
+
+/-- one iteration of the off-policy rollouts -/
+def offStep (c : Cfg) (a : Agent) (idx : Nat) (r : Roll) : Roll :=
+  let m' := memAdd c r.m
+  { m := m', steps := r.steps + c.numEnvs, env := r.env + c.numEnvs, its := r.its + 1,
+    learns := r.learns + learnsAt c a m' idx }
+
+/-- one environment step of the on-policy rollouts -/
+def onInner (c : Cfg) (_idx : Nat) (r : Roll) : Roll :=
+  { r with steps := r.steps + c.numEnvs, env := r.env + c.numEnvs, its := r.its + 1 }
+
+/-- `ceil(learn_step / num_envs)` environment steps, then one learn -/
+def onOuter (c : Cfg) (a : Agent) (_idx : Nat) (r : Roll) : Roll :=
+  let r' := iterate (onInner c) (ceilDiv a.ls c.numEnvs) r
+  { r' with learns := r'.learns + 1 }
+
+/-- `train_offline`: one learn per iteration; the counter is bumped by `evo_steps` afterwards -/
+def offlineStep (_idx : Nat) (r : Roll) : Roll :=
+  { r with env := r.env + 1, its := r.its + 1, learns := r.learns + 1 }
+
+/-- `train_bandits`: env step, add, `learn_step` learns once the memory holds a batch -/
+def banditStep (c : Cfg) (a : Agent) (_idx : Nat) (r : Roll) : Roll :=
+  let m' := memAdd c r.m
+  { m := m', steps := r.steps, env := r.env + 1, its := r.its + 1,
+    learns := r.learns + (if a.bs ≤ m'.len then a.ls else 0) }
+
+def rollout (c : Cfg) (a : Agent) (m : Mem) : Roll :=
+  match c.kind with
+  | .off | .maoff => iterate (offStep c a) (c.evoSteps / c.numEnvs) { m := m }
+  | .on | .maon => iterate (onOuter c a) (ceilDiv c.evoSteps a.ls) { m := m }
+  | .offline =>
+    let r := iterate offlineStep c.evoSteps { m := m }
+    { r with steps := c.evoSteps }                  -- `agent.steps[-1] += evo_steps`
+  | .bandit =>
+    let r := iterate (banditStep c a) c.episodeSteps { m := m }
+    { r with steps := c.episodeSteps }              -- `agent.steps[-1] += episode_steps`
+
+/-- the body of `for agent in pop` for one agent -/
+def trainAgent (c : Cfg) (a : Agent) (m : Mem) : Agent × Mem × Nat :=
+  let r := rollout c a m
+  ({ a with cur := a.cur + r.steps, env := a.env + r.env, its := a.its + r.its }, r.m, r.learns)
+
+def trainPop (c : Cfg) : List Agent → Mem → List Agent × Mem × List Nat
+  | [], m => ([], m, [])
+  | a :: as, m =>
+    let (a', m', l) := trainAgent c a m
+    let (as', m'', ls) := trainPop c as m'
+    (a' :: as', m'', l :: ls)
+
+/-- `agent.test` + `agent.steps.append(agent.steps[-1])` -/
+def evalAgent (a : Agent) : Agent := { a with fit := a.fit + 1, past := a.cur :: a.past }
+
+/-! ### the while condition and the documented budget -/
+
+def sumCur (pop : List Agent) : Nat := (pop.map (·.cur)).sum
+
+/-- the `while` condition exactly as written -/
+def cond (c : Cfg) (pop : List Agent) : Bool :=
+  match c.kind with
+  | .maon => decide (sumCur pop < c.maxSteps)
+  | _ => pop.all (fun a => decide (a.cur < c.maxSteps))
+
+/-- the budget, stated independently: some agent has reached `max_steps` (per-agent loops),
+    the population together has reached it (`train_multi_agent_on_policy`) -/
+def budgetMet (c : Cfg) (pop : List Agent) : Prop :=
+  match c.kind with
+  | .maon => c.maxSteps ≤ sumCur pop
+  | _ => ∃ a ∈ pop, c.maxSteps ≤ a.cur
+
+/-! ### selection and mutation (abstract outcome of Tournament / Mutations) -/
+
+structure Sel where
+  elite : Nat                 -- slot of the elite
+  parents : List Nat          -- slots of the tournament winners, in order
+deriving Repr, DecidableEq, Inhabited
+
+def maxIndex (pop : List Agent) : Nat := pop.foldl (fun m a => max m a.index) 0
+
+/-- `parent.clone(max_id + 1 + t)` for the winners; an out-of-range slot yields no child -/
+def children (pop : List Agent) : Nat → List Nat → List Agent
+  | _, [] => []
+  | mx, p :: ps =>
+    match pop[p]? with
+    | some a => { a with index := mx + 1 } :: children pop (mx + 1) ps
+    | none => children pop (mx + 1) ps
+
+def select (c : Cfg) (pop : List Agent) (s : Sel) : List Agent :=
+  let kids := children pop (maxIndex pop) s.parents
+  if c.elitism then
+    match pop[s.elite]? with
+    | some e => e :: kids
+    | none => kids
+  else kids
+
+/-- what `TournamentSelection(population_size = len(pop))` guarantees about its outcome -/
+def Sel.valid (s : Sel) (elitism : Bool) (n : Nat) : Prop :=
+  s.elite < n ∧ (∀ p ∈ s.parents, p < n) ∧ s.parents.length + (if elitism then 1 else 0) = n
+
+instance (s : Sel) (e : Bool) (n : Nat) : Decidable (s.valid e n) := by
+  unfold Sel.valid; exact inferInstance
+
+def mutateFrom : Nat → List Agent → List Bool → List Agent
+  | _, [], _ => []
+  | _, as, [] => as
+  | next, a :: as, f :: fs => (if f then { a with tag := next } else a) :: mutateFrom (next + 1) as fs
+
+/-- `Mutations.mutation`: same order, same size; slot 0 is left alone unless `mutate_elite` -/
+def mutate (c : Cfg) (next : Nat) (pop : List Agent) (flags : List Bool) : List Agent :=
+  match pop, flags with
+  | a :: as, f :: fs => (if f && c.mutateElite then { a with tag := next } else a) :: mutateFrom (next + 1) as fs
+  | pop, _ => pop
+
+/-- hyper-parameter values in force during a generation (`learn_step`, `batch_size` per slot) -/
+def applyHp : List Agent → List (Nat × Nat) → List Agent
+  | [], _ => []
+  | as, [] => as
+  | a :: as, (l, b) :: hs => { a with ls := l, bs := b } :: applyHp as hs
+
+/-! ### one generation -/
+
+structure GenIn where
+  hp : List (Nat × Nat) := []       -- (learn_step, batch_size) per slot for this generation
+  above : Bool := false             -- every agent's recent mean fitness exceeds `target`
+  sel : Option Sel := none          -- outcome of the tournament (none = no tournament/mutation objects)
+  mutated : List Bool := []         -- per slot: drew a real mutation
+deriving Repr, Inhabited
+
+structure St where
+  pop : List Agent := []
+  mem : Mem := {}
+  ckpts : Nat := 0                  -- checkpoint_count
+  evoCount : Nat := 0               -- evo_count (bandits)
+  gens : Nat := 0                   -- generations executed = entries of pop_fitnesses
+  halted : Bool := false            -- returned through the early-stop branch
+  saved : List (List Nat) := []     -- checkpoints written: steps[-1] of every agent, newest first
+  learns : List (List Nat) := []    -- learn calls per slot, newest generation first
+  selected : Bool := false          -- the last generation ran selection + mutation
+  nextTag : Nat := 1000
+deriving Repr, Inhabited
+
+/-- does this generation run `tournament_selection_and_mutation`? -/
+def selGate (c : Cfg) (s : St) (pop : List Agent) : Bool :=
+  match c.kind with
+  | .bandit => decide (s.evoCount < (pop.headD default).cur / c.evoSteps)
+  | _ => true
+
+/-- training + evaluation + `steps.append` -/
+def genTrain (c : Cfg) (s : St) (hp : List (Nat × Nat)) : St :=
+  let (pop1, mem1, ls) := trainPop c (applyHp s.pop hp) s.mem
+  { s with pop := pop1.map evalAgent, mem := mem1, gens := s.gens + 1, learns := ls :: s.learns,
+           selected := false }
+
+def earlyStop (s : St) (above : Bool) : Bool :=
+  above && decide (100 ≤ (s.pop.headD default).past.length + 1)
+
+def genSelect (c : Cfg) (s : St) (i : GenIn) : St :=
+  match i.sel with
+  | none => s
+  | some sel =>
+    if selGate c s s.pop then
+      { s with pop := mutate c s.nextTag (select c s.pop sel) i.mutated,
+               evoCount := s.evoCount + 1, selected := true,
+               nextTag := s.nextTag + s.pop.length + 1 }
+    else s
+
+def genCheckpoint (c : Cfg) (s : St) : St :=
+  if c.checkpoint ≠ 0 ∧ s.ckpts < (s.pop.headD default).cur / c.checkpoint then
+    { s with ckpts := s.ckpts + 1, saved := s.pop.map (·.cur) :: s.saved }
+  else s
+
+/-- the body of the `while` loop -/
+def genBody (c : Cfg) (s : St) (i : GenIn) : St :=
+  let s1 := genTrain c s i.hp
+  if earlyStop s1 i.above then { s1 with halted := true }
+  else genCheckpoint c (genSelect c s1 i)
+
+/-- one trip round the `while`: nothing happens once the function has returned -/
+def whileStep (c : Cfg) (s : St) (i : GenIn) : St :=
+  if s.halted || !cond c s.pop then s else genBody c s i
+
+def run (c : Cfg) (s : St) (ins : List GenIn) : St := ins.foldl (whileStep c) s
+
+/-! ### closed formulas -/
+
+/-- iterations of one agent's rollout -/
+def agentIters (c : Cfg) (a : Agent) : Nat :=
+  match c.kind with
+  | .off | .maoff => c.evoSteps / c.numEnvs
+  | .on | .maon => ceilDiv c.evoSteps a.ls * ceilDiv a.ls c.numEnvs
+  | .offline => c.evoSteps
+  | .bandit => c.episodeSteps
+
+/-- first rollout iteration (0-based) at which a memory holding `m0` transitions, growing by `ne`
+    per iteration, holds at least `thr` -/
+def firstOpen (thr m0 ne : Nat) : Nat := ceilDiv (thr - m0) ne - 1
+
+/-- multiples of `k` in `[a, b)` -/
+def multiplesIn (k a b : Nat) : Nat := ceilDiv b k - ceilDiv a k
+
+/-- closed formula for the learn calls of one off-policy rollout (no n-step window) that starts with
+    `m0` stored transitions: the gate `len ≥ batch_size ∧ len > learning_delay` opens at iteration
+    `firstOpen` (never, if the capacity is below the threshold) and stays open -/
+def learnCallsOff (c : Cfg) (a : Agent) (m0 : Nat) : Nat :=
+  let iters := c.evoSteps / c.numEnvs
+  let thr := max a.bs (c.delay + 1)
+  if c.cap < thr then 0 else
+  let i0 := min (firstOpen thr m0 c.numEnvs) iters
+  if c.numEnvs < a.ls then multiplesIn (a.ls / c.numEnvs) i0 iters
+  else (iters - i0) * (c.numEnvs / a.ls)
+
+/-! ### compatibility table -/
+
+/-- one extracted row: which batch form the loop hands to `learn`, and whether `learn` took it -/
+structure Row where
+  loop : String
+  algo : String
+  memory : String
+  form : String
+  accepted : Bool
+deriving Repr, DecidableEq, Inhabited
+
+/-- combinations the training functions claim to support (their imports, `isinstance` dispatch,
+    docstrings and the documentation: PER and n-step replay are RainbowDQN features) -/
+def claimed (r : Row) : Bool :=
+  match r.loop with
+  | "off" =>
+    (r.memory == "uniform" && ["DQN", "RainbowDQN", "DDPG", "TD3"].contains r.algo) ||
+    (["per", "nstep", "per_nstep"].contains r.memory && r.algo == "RainbowDQN")
+  | "on" => r.memory == "none" && r.algo == "PPO"
+  | "offline" => r.memory == "uniform" && r.algo == "CQN"
+  | "bandit" => r.memory == "uniform" && ["NeuralUCB", "NeuralTS"].contains r.algo
+  | "maoff" => r.memory == "ma" && ["MADDPG", "MATD3"].contains r.algo
+  | "maon" => r.memory == "none" && r.algo == "IPPO"
+  | _ => false
+
+def rowOk (r : Row) : Bool := !claimed r || r.accepted
+
+def tableOk (t : List Row) : Bool := t.all rowOk
+
+/-- the claimed combinations, each of which must appear in an extracted table -/
+def claimedKeys : List (String × String × String) :=
+  [("off", "DQN", "uniform"), ("off", "RainbowDQN", "uniform"), ("off", "DDPG", "uniform"),
+   ("off", "TD3", "uniform"), ("off", "RainbowDQN", "per"), ("off", "RainbowDQN", "nstep"),
+   ("off", "RainbowDQN", "per_nstep"), ("on", "PPO", "none"), ("offline", "CQN", "uniform"),
+   ("bandit", "NeuralUCB", "uniform"), ("bandit", "NeuralTS", "uniform"),
+   ("maoff", "MADDPG", "ma"), ("maoff", "MATD3", "ma"), ("maon", "IPPO", "none")]
+
+def tableComplete (t : List Row) : Bool :=
+  claimedKeys.all (fun k => t.any (fun r => r.loop == k.1 && r.algo == k.2.1 && r.memory == k.2.2))
+
+/-- the table extracted from the repaired tree (fixes C20-td3/cqn-learn-tensordict,
+    C20-bandits-transition applied); the harness re-extracts it on every run -/
+def extractedTable : List Row :=
+  [⟨"off", "DQN", "uniform", "tensordict", true⟩,
+   ⟨"off", "RainbowDQN", "uniform", "tensordict", true⟩,
+   ⟨"off", "DDPG", "uniform", "tensordict", true⟩,
+   ⟨"off", "TD3", "uniform", "tensordict", true⟩,
+   ⟨"off", "CQN", "uniform", "tensordict", true⟩,
+   ⟨"off", "RainbowDQN", "per", "tensordict+weights+idxs", true⟩,
+   ⟨"off", "RainbowDQN", "nstep", "tensordict+idxs,n_experiences", true⟩,
+   ⟨"off", "RainbowDQN", "per_nstep", "tensordict+weights+idxs,n_experiences", true⟩,
+   ⟨"off", "DQN", "per", "none", false⟩,
+   ⟨"off", "DQN", "nstep", "tensordict+idxs,n_experiences", false⟩,
+   ⟨"off", "DDPG", "per", "none", false⟩,
+   ⟨"off", "DDPG", "nstep", "tensordict+idxs,n_experiences", false⟩,
+   ⟨"on", "PPO", "none", "rollout", true⟩,
+   ⟨"offline", "CQN", "uniform", "tensordict", true⟩,
+   ⟨"offline", "DQN", "uniform", "tensordict", true⟩,
+   ⟨"bandit", "NeuralUCB", "uniform", "tensordict", true⟩,
+   ⟨"bandit", "NeuralTS", "uniform", "tensordict", true⟩,
+   ⟨"maoff", "MADDPG", "ma", "ma_tuple", true⟩,
+   ⟨"maoff", "MATD3", "ma", "ma_tuple", true⟩,
+   ⟨"maon", "IPPO", "none", "ma_rollout", true⟩]
+
+end Loop
+
+/-! ### line protocol -/
 namespace Loop
 open Util
 
 structure IOState where
-  dummy : Nat := 0
+  cfg : Cfg := {}
+  st : St := {}
+  table : List Row := []
+
+def parseKind? : String → Option Kind
+  | "off" => some .off | "on" => some .on | "offline" => some .offline
+  | "bandit" => some .bandit | "maoff" => some .maoff | "maon" => some .maon
+  | _ => none
+
+def pairs : List Nat → Option (List (Nat × Nat))
+  | [] => some []
+  | [_] => none
+  | a :: b :: r => (pairs r).map ((a, b) :: ·)
+
+def showAgentSteps (a : Agent) : String := showNats (a.past.reverse ++ [a.cur])
+
+def showPop (pop : List Agent) : String :=
+  "idx " ++ showNats (pop.map (·.index)) ++ " | steps " ++ showNats (pop.map (·.cur)) ++
+  " | fit " ++ showNats (pop.map (·.fit)) ++ " | hist " ++ showNats (pop.map (fun a => a.past.length + 1))
+
+def parseBool? : String → Option Bool
+  | "1" => some true | "0" => some false | _ => none
 
 def step (s : IOState) : List String → IOState × String
+  | ["cfg", k, mx, evo, ne, dl, cap, ns, ep, ck, el, me] =>
+    match parseKind? k, parseNats? [mx, evo, ne, dl, cap, ns, ep, ck], parseBool? el, parseBool? me with
+    | some kind, some [mx, evo, ne, dl, cap, ns, ep, ck], some el, some me =>
+      if ne = 0 then (s, "reject")                       -- no such environment
+      else if kind = .bandit ∧ evo = 0 then (s, "reject")  -- `// evo_steps` raises
+      else
+        ({ s with cfg := { kind := kind, maxSteps := mx, evoSteps := evo, numEnvs := ne, delay := dl,
+                           cap := cap, nStep := ns, episodeSteps := ep, checkpoint := ck,
+                           elitism := el, mutateElite := me },
+                  st := {} }, "ok")
+    | _, _, _, _ => (s, "bad-op")
+  | "pop" :: ws =>
+    -- index steps index steps …
+    match (parseNats? ws).bind pairs with
+    | some ps =>
+      if ps.isEmpty then (s, "reject") else
+      let pop := ps.mapIdx (fun i p => ({ index := p.1, cur := p.2, env := p.2, tag := i } : Agent))
+      ({ s with st := { s.st with pop := pop } }, "ok")
+    | none => (s, "bad-op")
+  | ["cond"] => (s, showBool (!s.st.halted && cond s.cfg s.st.pop))
+  | "gen" :: ab :: ws =>
+    -- above  ls bs ls bs …  : training + evaluation of one generation (if the loop is still running)
+    match parseBool? ab, (parseNats? ws).bind pairs with
+    | some above, some hp =>
+      if hp.any (fun h => h.1 = 0) then (s, "reject")     -- learn_step = 0 divides by zero
+      else if s.st.halted || !cond s.cfg s.st.pop then (s, "stop")
+      else
+        let s1 := genTrain s.cfg s.st hp
+        let early := earlyStop s1 above
+        let s1 := if early then { s1 with halted := true } else s1
+        ({ s with st := s1 },
+         (if early then "early " else "") ++ "steps " ++ showNats (s1.pop.map (·.cur)) ++
+         " | learns " ++ showNats (s1.learns.headD []) ++ " | mem " ++ toString s1.mem.len ++
+         " | fit " ++ showNats (s1.pop.map (·.fit)))
+    | _, _ => (s, "bad-op")
+  | ["selq"] =>
+    -- would a configured tournament run after this generation?
+    (s, showBool (!s.st.halted && selGate s.cfg s.st s.st.pop))
+  | "sel" :: e :: rest =>
+    -- elite slot, parents…, "|", mutated flags…
+    let ps := rest.takeWhile (· ≠ "|")
+    let fs := (rest.dropWhile (· ≠ "|")).drop 1
+    match parseNat? e, parseNats? ps, allSome (fs.map parseBool?) with
+    | some e, some ps, some fs =>
+      let sel : Sel := { elite := e, parents := ps }
+      if s.st.halted then (s, "stop")
+      else if ¬ (e < s.st.pop.length ∧ ps.all (· < s.st.pop.length)) then (s, "reject")
+      else
+        let old := s.st.pop
+        let s2 := genSelect s.cfg s.st { sel := some sel, mutated := fs }
+        let eliteTag := (old.getD e default).tag
+        let carried := s.cfg.elitism && (s2.pop.headD default).tag == eliteTag
+        ({ s with st := s2 },
+         (if s2.selected then "" else "skipped ") ++ showPop s2.pop ++
+         " | elite-carried " ++ showBool carried)
+    | _, _, _ => (s, "bad-op")
+  | ["ckpt"] =>
+    if s.st.halted then (s, "stop") else
+    let s2 := genCheckpoint s.cfg s.st
+    ({ s with st := s2 },
+     if s2.ckpts = s.st.ckpts then "nosave" else "save " ++ showNats (s2.pop.map (·.cur)))
+  | ["dump"] =>
+    (s, showPop s.st.pop ++ " | gens " ++ toString s.st.gens ++ " | ckpts " ++ toString s.st.ckpts ++
+        " | lists " ++ " ; ".intercalate (s.st.pop.map showAgentSteps))
+  | ["learncalls", ls, bs, m0] =>
+    -- closed formula for one off-policy rollout
+    match parseNats? [ls, bs, m0] with
+    | some [ls, bs, m0] =>
+      if ls = 0 then (s, "reject") else (s, toString (learnCallsOff s.cfg { ls := ls, bs := bs } m0))
+    | _ => (s, "bad-op")
+  | ["iters", ls] =>
+    match parseNat? ls with
+    | some ls => if ls = 0 then (s, "reject") else
+        (s, toString (agentIters s.cfg { ls := ls }) ++ " " ++ toString (agentIters s.cfg { ls := ls } * stride s.cfg))
+    | none => (s, "bad-op")
+  | ["row", lp, al, me, fo, ac] =>
+    match parseBool? ac with
+    | some ac =>
+      let r : Row := ⟨lp, al, me, fo, ac⟩
+      ({ s with table := s.table ++ [r] },
+       "claimed " ++ showBool (claimed r) ++ " ok " ++ showBool (rowOk r) ++
+       " snapshot " ++ showBool (extractedTable.contains r))
+    | none => (s, "bad-op")
+  | ["table"] =>
+    (s, "ok " ++ showBool (tableOk s.table) ++ " complete " ++ showBool (tableComplete s.table) ++
+        " rows " ++ toString s.table.length)
   | _ => (s, "bad-op")
 
 end Loop
